@@ -173,15 +173,48 @@ def acceptance_chunk(pairs: list[tuple[int, int]]) -> list[dict[str, Any]]:
             model = torch.nn.Sequential(torch.nn.Linear(3, 2),
                                         torch.nn.Linear(2, 2))
             try:
-                with simdist.SoloWorld(W // 2, W) as sw:
-                    with warnings.catch_warnings():
-                        warnings.simplefilter('ignore')
-                        pre = KFACPreconditioner(
-                            model, grad_worker_fraction=frac)
+                # the per-rank view the preconditioner really uses must be
+                # the view of THIS global rank (the pretended world carries
+                # the environment of a two-node launch, where the node-local
+                # rank differs from the global rank)
+                rs = range(W) if W <= 8 else sorted({0, W // 2, W - 1})
+                p = W // k
+                for r in rs:
+                    with simdist.SoloWorld(r, W) as sw:
+                        with warnings.catch_warnings():
+                            warnings.simplefilter('ignore')
+                            pre = KFACPreconditioner(
+                                model, grad_worker_fraction=frac)
                     a = pre._assignment
                     if a.grad_workers != k:
                         out.append({'W': W, 'k': k, 'via': f'precond/{sp}',
                                     'err': f'grad_workers={a.grad_workers}'})
+                        break
+                    err = None
+                    for n in a.get_layers():
+                        iw = {a.inv_worker(n, f) for f in a.get_factors(n)}
+                        cols = {w % p for w in iw}
+                        if len(cols) != 1:
+                            err = f'inverse workers of {n} span groups: {iw}'
+                            break
+                        col = next(iter(cols))
+                        gw = (r % p == col)
+                        src = (r // p) * p + col
+                        if a.is_grad_worker(n) != gw:
+                            err = (f'rank {r}: is_grad_worker({n})='
+                                   f'{a.is_grad_worker(n)} expected {gw}')
+                        elif a.src_grad_worker(n) != src:
+                            err = (f'rank {r}: src_grad_worker({n})='
+                                   f'{a.src_grad_worker(n)} expected {src}')
+                        elif r not in simdist.group_ranks_of(
+                                a.grad_receiver_group(n), W):
+                            err = f'rank {r}: not in its own receiver group'
+                        if err:
+                            break
+                    if err:
+                        out.append({'W': W, 'k': k, 'via': f'precond-view/{sp}',
+                                    'err': err})
+                        break
             except Exception as e:  # noqa: BLE001
                 out.append({'W': W, 'k': k, 'via': f'KFACPreconditioner/{sp}',
                             'err': f'{type(e).__name__}: {e}'[:200]})
